@@ -213,7 +213,7 @@ End paired.
 (* the code as found: tracing switched off inside b; a was entered with tracing on and never gets its exit callback *)
 Definition sw_cfg : cfg :=
   mkcfg [(2, {| t_filter := None; t_depth := None; t_time := None; t_size := None;
-                t_trace_on := false; t_trace_off := true; t_trace := false; t_caller := false |})]
+                t_trace_on := false; t_trace_off := true; t_trace := false; t_caller := false; t_loc := None; t_finish := false |})]
         false false 1024 0 1024 [] PG.
 Definition sw_events : list ev := [Enter 1 100; Enter 2 110; Leave 120; Leave 130].
 Lemma legacy_unpaired : bal [] (cbs false sw_cfg sw_events (init, [])) = Some [2; 1] /\
